@@ -7,7 +7,7 @@ from ref import rfc9171
 
 ID = 'C06'
 LEVEL = 'exploration'
-RULE = ('1-3 original bundles (same source with different timestamp / sequence number, or different sources with the same timestamp), '
+RULE = ('(a quarter of the originals carry an integrity block over the payload, bound to the primary block, which must verify after reassembly) 1-3 original bundles (same source with different timestamp / sequence number, or different sources with the same timestamp), '
         'each cut by the reference fragmenter into 2-6 pieces (uniform, uneven or overlapping) with extension blocks on the first '
         'fragment and replicate-flagged ones on all; the link (chooser) permutes the arrival order across all originals, duplicates '
         'fragments (also after completion) and in a share of runs drops one fragment. After every reception an interval-set model '
